@@ -288,6 +288,9 @@ pub struct DisplayCase {
     pub second: u32,
     pub format: u8,
     pub via_cell: bool,
+    /// for the conditional two-section format: threshold = day serial + delta
+    #[serde(default)]
+    pub delta: i8,
 }
 
 const MONTHS: [&str; 12] = ["Jan", "Feb", "Mar", "Apr", "May", "Jun", "Jul", "Aug", "Sep", "Oct", "Nov", "Dec"];
@@ -302,6 +305,14 @@ fn formats() -> Vec<&'static str> {
         "m/d/yy h:mm",
         "d-mmm-yy",
         "yyyy/mm/dd;@",
+        // locale tags ([$-<LCID>], hexadecimal) in front of a numeric date layout
+        "[$-40C]yyyy-mm-dd",
+        "[$-F800]yyyy/mm/dd",
+        "[$-C09]dd/mm/yyyy",
+        "[$-409]yyyy-mm-dd",
+        // two sections chosen by a condition on the serial (threshold filled in per case)
+        "[<=T]yyyy-mm-dd;dd/mm/yyyy",
+        "[>T]dd/mm/yyyy;yyyy-mm-dd",
     ]
 }
 
@@ -310,8 +321,9 @@ fn expected_display(fmt: &str, y: i64, m: i64, d: i64, sec: u32) -> String {
     match fmt {
         "yyyy-mm-dd" => format!("{:04}-{:02}-{:02}", y, m, d),
         "yyyy-mm-dd hh:mm:ss" => format!("{:04}-{:02}-{:02} {:02}:{:02}:{:02}", y, m, d, hh, mi, ss),
-        "yyyy/mm/dd" | "yyyy/mm/dd;@" => format!("{:04}/{:02}/{:02}", y, m, d),
-        "dd/mm/yyyy" => format!("{:02}/{:02}/{:04}", d, m, y),
+        "yyyy/mm/dd" | "yyyy/mm/dd;@" | "[$-F800]yyyy/mm/dd" => format!("{:04}/{:02}/{:02}", y, m, d),
+        "dd/mm/yyyy" | "[$-C09]dd/mm/yyyy" => format!("{:02}/{:02}/{:04}", d, m, y),
+        "[$-40C]yyyy-mm-dd" | "[$-409]yyyy-mm-dd" => format!("{:04}-{:02}-{:02}", y, m, d),
         "mm-dd-yy" => format!("{:02}-{:02}-{:02}", m, d, y % 100),
         "m/d/yy h:mm" => format!("{}/{}/{:02} {}:{:02}", m, d, y % 100, hh, mi),
         "d-mmm-yy" => format!("{}-{}-{:02}", d, MONTHS[(m - 1) as usize], y % 100),
@@ -330,12 +342,13 @@ fn display_case(_t: Tier) -> BoxedStrategy<DisplayCase> {
         2 => prop::sample::select(vec![1u32, 59, 60, 3599, 3600, 43199, 43200, 86399]),
         3 => 0u32..86400,
     ];
-    (day, second, 0u8..8, any::<bool>())
-        .prop_map(|(day_index, second, format, via_cell)| DisplayCase {
+    (day, second, 0u8..14, any::<bool>(), -1i8..=1)
+        .prop_map(|(day_index, second, format, via_cell, delta)| DisplayCase {
             day_index,
             second,
             format,
             via_cell,
+            delta,
         })
         .boxed()
 }
@@ -352,7 +365,22 @@ fn check_display(c: &DisplayCase, obs: &mut Obs) -> Verdict {
     obs.class(fmt);
     obs.nontrivial(nontrivial_date(c.day_index, second));
     let serial = ref_serial_day(y, m, d) as f64 + second as f64 / 86400.0;
-    let expect = expected_display(fmt, y, m, d, second);
+    // conditional sections: the threshold is an integer serial next to the value's day
+    let threshold = ref_serial_day(y, m, d) + c.delta as i64;
+    let (fmt_owned, expect) = if fmt.contains('T') {
+        let first = if fmt.starts_with("[<=") { serial <= threshold as f64 } else { serial > threshold as f64 };
+        let iso = format!("{:04}-{:02}-{:02}", y, m, d);
+        let dmy = format!("{:02}/{:02}/{:04}", d, m, y);
+        let e = match (fmt.starts_with("[<="), first) {
+            (true, true) | (false, false) => iso,
+            _ => dmy,
+        };
+        obs.class(format!("condition-delta:{}", c.delta));
+        (fmt.replace('T', &threshold.to_string()), e)
+    } else {
+        (fmt.to_string(), expected_display(fmt, y, m, d, second))
+    };
+    let fmt = fmt_owned.as_str();
     let r = guard(|| {
         if c.via_cell {
             let mut book = umya_spreadsheet::new_file();
